@@ -149,6 +149,13 @@ class _Names:
                     elif isinstance(v, ast.Call) and isinstance(v.func, ast.Attribute) and v.func.attr == "lstrip" and isinstance(v.func.value, ast.Name) \
                             and v.func.value.id == p[1]:
                         trimmed = a
+            if trimmed is None:
+                # by use: the attribute the prefix test reads (what it holds is then checked by the line rules, not assumed)
+                sw = cls.find_method("startswith")
+                for n in ast.walk(sw.node) if sw is not None else []:
+                    if isinstance(n, ast.Call) and isinstance(n.func, ast.Attribute) and n.func.attr == "startswith" \
+                            and isinstance(n.func.value, ast.Attribute) and isinstance(n.func.value.value, ast.Name) and n.func.value.value.id == sw.params()[0]:
+                        trimmed = n.func.value.attr
             if None in (raw, trimmed, lineno):
                 raise AnalysisError("anchor vanished: GherkinLine.__init__ no longer stores raw text / left-trimmed text / line number")
             return raw, trimmed, lineno
